@@ -594,19 +594,18 @@ void convex_hull(const Array<Vec2> points, Array<Vec2>& result) {
             qh_facet = qh_nextfacet2d(qh_facet, &qh_vertex);
         }
     } else if (exitcode == qh_ERRsingular) {
-        // QHull errors for singular input (collinear points in 2D)
-        Vec2 min = {DBL_MAX, DBL_MAX};
-        Vec2 max = {-DBL_MAX, -DBL_MAX};
+        // QHull errors for singular input (collinear points in 2D): the hull is the segment
+        // between the two extreme points of the input (in lexicographic order)
         Vec2* p = points.items;
+        Vec2* first = p;
+        Vec2* last = p;
         for (uint64_t num = points.count; num > 0; num--, p++) {
-            if (p->x < min.x) min.x = p->x;
-            if (p->x > max.x) max.x = p->x;
-            if (p->y < min.y) min.y = p->y;
-            if (p->y > max.y) max.y = p->y;
+            if (p->x < first->x || (p->x == first->x && p->y < first->y)) first = p;
+            if (p->x > last->x || (p->x == last->x && p->y > last->y)) last = p;
         }
-        if (min.x < max.x) {
-            result.append(min);
-            result.append(max);
+        if (points.count > 0) {
+            result.append(*first);
+            if (last != first) result.append(*last);
         }
     } else {
         // The least we can do
